@@ -270,13 +270,17 @@ def near_short_pair(rng, cls, vects, pbc=None, r0=None):
     else:
         raise ValueError(cls)
     drel = np.linalg.solve(v.T, delta)
+    big = np.abs(drel).max()
+    if big > 0.45:                                             # offset kept well inside one cell (thin cells)
+        drel = drel * (0.45 / big)
     best = None
     for sign in ((1.0, -1.0) if rng.random() < 0.5 else (-1.0, 1.0)):
         q = sign * f * n + drel
         over = np.abs(q) > 1.0
         q[over] -= 2.0 * drel[over]                            # offset turned inwards where it left the cell
         if r0 is None:
-            lo, hi = np.maximum(0.0, -q), np.minimum(1.0, 1.0 - q)
+            lo = np.maximum(0.0, -q)
+            hi = np.maximum(lo, np.minimum(1.0, 1.0 - q))
             a = rng.uniform(lo, hi)
             pin = rng.random(3) < 0.25                         # on the face where the range ends
             a = np.where(pin, np.where(rng.random(3) < 0.5, lo, hi), a)
